@@ -79,7 +79,9 @@ func c10Wire(kind int, hbh uint32) []byte {
 	case pAns:
 		return c10App(false, 272, 4, hbh, sess, peer.U32(peer.ResultCode, 2001))
 	default:
-		return c10App(true, 275, 0, hbh, sess)
+		// a base request nobody registered a handler for (catch-all only): Session-Termination,
+		// Disconnect-Peer, Abort-Session or Re-Auth in turn - gated like every other message
+		return c10App(true, []uint32{275, 282, 274, 258}[(int(hbh)+c10Dress/3)%4], 0, hbh, sess)
 	}
 }
 
